@@ -87,3 +87,10 @@ CHECKS = [Check("periodic_handlers", lambda rec, c=None, **kw: body_periodic(rec
                                                            max_events=(30000, 30000))},
                 quick=10, thorough=60, quick_shards=16, thorough_shards=16, shrink_quick=False),
           ]
+
+from . import C17_outstate  # noqa: E402  (handler part: out-states of the sampling / end-of-run handlers, drawn branches)
+CHECKS = CHECKS + C17_outstate.CHECKS
+RULE += (" Sub-check out_state_time_sliced: the sampling and end-of-run handlers are handed one to three directly drawn "
+         "active branches (same or different composite objects, point masses or whole objects moving, own time "
+         "stamps); every unit with a velocity must come back with the event time and the position of its own "
+         "trajectory.")
